@@ -238,7 +238,13 @@ def check_for_exception(sObjectValue, self, oToi, iIndex, iLine):
 def does_not_contain_any_alpha_characters(sObjectValue):
     if sObjectValue.startswith('"'):
         return True
+    if is_character_literal(sObjectValue):
+        return True
     return False
+
+
+def is_character_literal(sObjectValue):
+    return len(sObjectValue) == 3 and sObjectValue.startswith("'") and sObjectValue.endswith("'")
 
 
 # Define mapping of case to checkers and comparators
